@@ -439,6 +439,15 @@ def split_equations_iter(model: str) -> Iterator[str]:
             # Reset the buffer to collect another equation
             buffer = []
 
+    # If still inside a fenced block of verbatim code at this point, the closing
+    # backticks are missing (and everything since the opening fence would
+    # otherwise be silently dropped). Throw an error
+    if not complete_verbatim_block:
+        raise ParserError(
+            'Failed to find the closing backticks of the verbatim code block '
+            'beginning: ' + '\n'.join(buffer)
+        )
+
     # If `unmatched_parentheses` is non-zero at this point, there must have
     # been an error in the input script's syntax. Throw an error
     if unmatched_parentheses != 0:
